@@ -535,6 +535,16 @@ def check_db_iter(ctx):
         ctx.check(got == {tuple(want)}, "T12-dbiter-composition", "find_prev_user_entry:" + name, fp.name, fp.loc,
                   "find_prev_user_entry: %s -> %s" % (name, _fmt([want])[0]),
                   "find_prev_user_entry under %s performs %s, expected %s" % (name, _fmt(got), _fmt([want])[0]))
+    # the value saved for the current entry survives until the scan moves on
+    from ..rules import never_after
+    saves = [e for b, i, e in fp.events("call") if _db_token(e) == ("save", "&iter->saved_value", "&value")]
+    ctx.require(len(saves) >= 1, "find_prev_user_entry: the copy into saved_value not found")
+    never_after(ctx, "T12-dbiter-composition", "find_prev_user_entry:saved-value-kept", fp,
+                lambda e: e["e"] == "call" and _db_token(e) is not None and _db_token(e)[:2] == ("save", "&iter->saved_value"),
+                lambda e: (is_call(e, ("ldb_buffer_reinit", "ldb_buffer_reset", "ldb_buffer_clear")) and argkey(e, 0) == "&iter->saved_value")
+                or is_call(e, "clear_saved_value"),
+                "the value copied for the entry just accepted is not released before the scan steps to the next entry",
+                until=lambda e: e["e"] == "call" and _db_token(e) == ("prev",))
     ini = [key(e.get("init")) for b, i, e in fp.events("decl") if e["n"] == "value_type"]
     ctx.check(ini == [str(DEL)], "T12-dbiter-composition", "find_prev_user_entry:initial", fp.name, fp.loc,
               "the backward scan starts with nothing held", "value_type starts as %s" % ini)
